@@ -75,15 +75,17 @@ class FormulaEnginePool:
         Returns:
             A FormulaReceiver that streams values with the formulas applied.
         """
-        channel_key = formula + component_metric_id.value
+        channel_key = f"{formula} [{component_metric_id.value}]"
+        if nones_are_zeros:
+            channel_key += " [nones_are_zeros]"
         if channel_key in self._string_engines:
             return self._string_engines[channel_key]
 
         # The engine's name identifies its output when it is composed with other
-        # engines, so it has to be different for each metric the formula is used with.
+        # engines, so it has to be different for each distinct engine of this pool.
         builder = ResampledFormulaBuilder(
             self._namespace,
-            f"{formula} [{component_metric_id.value}]",
+            channel_key,
             self._channel_registry,
             self._resampler_subscription_sender,
             component_metric_id,
